@@ -38,6 +38,7 @@ pub fn scfg(t: &Task) -> SCfg {
         },
         burst: vec![],
         script: vec![],
+        latency: 0,
         strategy: strat::strategy_config(
             Protocol::Icmp,
             1,
